@@ -91,6 +91,7 @@ def gen_case(rng: random.Random, tier: str) -> dict:
             fault2 = dict(fault, run_pred={mapped[j2]: rng.choice(others)}, fid=1, node=rng.choice([nd["name"] for nd in inner["nodes"] if nd["kind"] == "fn"]))
     via = rng.choice(["runner_map", "node", "node"])
     outer = {"rename_in": rng.random() < 0.3, "rename_out": rng.random() < 0.3, "consumer": rng.random() < 0.5,
+             "touch": rng.random() < 0.3,
              "rename_after_map": rng.random() < 0.4,  # with_inputs/with_outputs called after map_over instead of before
              "inner_bind_equal": rng.random() < 0.25,  # the inner graph binds a broadcast input to an EQUAL (not identical) value
              "inner_select": rng.random() < 0.25,  # runner.map on a graph that carries a default selection
@@ -163,6 +164,8 @@ def _outer_spec(doc: dict) -> tuple[dict, dict, dict]:
         "error_handling": doc["error_handling"],
         "clone": clone,
     }
+    if doc["outer"].get("touch"):
+        node["touch"] = ["spec"]  # the wrapper object is USED (introspected, asked to translate names) before the renames derive from it
     if doc["outer"].get("rename_after_map") and renames:
         # configure the mapping in the original names first, rename afterwards
         node["renames"] = []
@@ -480,7 +483,7 @@ def shrink_candidates(doc: dict):
         c = copy.deepcopy(doc)
         c["clone"] = False
         yield c
-    for k in ("rename_in", "rename_out", "consumer", "rename_after_map", "inner_bind_equal", "inner_select"):
+    for k in ("rename_in", "rename_out", "consumer", "rename_after_map", "inner_bind_equal", "inner_select", "touch"):
         if doc["outer"].get(k):
             c = copy.deepcopy(doc)
             c["outer"][k] = False
